@@ -346,7 +346,10 @@ pub fn channel(rng: &mut StdRng, family: &str, bps: usize, n: usize) -> Vec<i32>
             let a = ((1i64 << 32) / foldmax) as usize;
             let delta: i64 = [0i64, 1, 2, 100, 4096, -1, -300, 65536][rng.gen_range(0..8)];
             let mult: i64 = if n >= 2 * a + 64 && rng.gen_bool(0.3) { 2 } else { 1 };
-            let a = a * mult as usize;
+            // "flat" variant: no full-scale samples, the sum is spread evenly (every quotient is moderate, so
+            // guards that look at the largest quotient do not see the overflow coming)
+            let flat = (n as i64) * foldmax > mult * (1i64 << 32) + 70_000 && rng.gen_bool(0.4);
+            let a = if flat { 0 } else { a * mult as usize };
             if n > a {
                 let mut r = mult * (1i64 << 32) - a as i64 * foldmax + delta;
                 let rest = n - a;
